@@ -8,7 +8,7 @@ by the harness, not the journal.
 import itertools
 
 from mc import refs
-from mc.world import World1, num_in, num_out, stored_counters, journal_rows
+from mc.world import session_of, World1, num_in, num_out, stored_counters, journal_rows
 
 POOL = [("SRV", "CLI"), ("ACC", "INI"), ("S1", "T1"), ("EXCH", "FIRM")]
 CFG = {"S": "SRV", "T": "CLI"}
@@ -71,7 +71,7 @@ def run_case(case):
                 w.writer.broken = None
                 if num_out(c) != n_before + 1:
                     return None  # the send did not consume a number: skip shape
-                row = {seq: m for (k_, d, seq, m) in journal_rows(w.j) if d == 1 and k_ == c._session.key}.get(n_before)
+                row = {seq: m for (k_, d, seq, m) in journal_rows(w.j) if d == 1 and k_ == session_of(c).key}.get(n_before)
                 if row is None:
                     truth[n_before] = {"kind": "hole"}
                 else:
@@ -83,7 +83,7 @@ def run_case(case):
                 # a message that was sent but is missing from the journal (lost / pruned row)
                 w.send(_mk(k, uid))
                 note_written("app")
-                w.j.conn.execute("DELETE FROM message WHERE seqNo = ? AND direction = 1 AND session = ?", (n_before, c._session.key))
+                w.j.conn.execute("DELETE FROM message WHERE seqNo = ? AND direction = 1 AND session = ?", (n_before, session_of(c).key))
                 w.j.conn.commit()
                 truth[n_before] = {"kind": "hole"}
             elif k == "tr":
@@ -137,7 +137,7 @@ def one_request(w, truth, last, b, e, awaiting, idx, first_class, case):
     st0 = c.connection_state.name
     live0 = num_out(c)
     stored0 = stored_counters(w.j, w.T, w.S)
-    skey = w.c._session.key
+    skey = session_of(w.c).key
     rows0 = {seq: m for (k_, d, seq, m) in journal_rows(w.j) if d == 1 and k_ == skey}
     foreign0 = [r for r in journal_rows(w.j) if r[0] != skey]
     valid = 1 <= b <= last and (e == 0 or e >= b)
